@@ -6,9 +6,9 @@
 set -u
 export GOFLAGS=-mod=mod GOPROXY=off GOSUMDB=off GOTOOLCHAIN=local
 prop=$1; n=$2; pkg=$3; run=${4:-.}
-src=/tmp/out-$prop/$n; S=/tmp/seedrepo; id=$prop-$n
+src=/tmp/out-$prop/$n; id=$prop-$n
 [ -f $src/patch.diff ] || { echo "no patch"; exit 1; }
-rm -rf $S; rsync -a --exclude .git /repo/ $S/
+S=/tmp/seedrepo-$$; rm -rf $S; rsync -a --exclude .git /repo/ $S/
 demo() { # $1 = label
   if [ "$pkg" != "-" ]; then cp $src/demo_test.go $S/$pkg/zz_demo_test.go; (cd $S && go test -count=1 -timeout 120s -run "$run" ./$pkg/ >/tmp/seed-demo-$1.log 2>&1); rc=$?; rm -f $S/$pkg/zz_demo_test.go; return $rc
   else (cd $src/demo && sed -i "s#=> .*#=> $S#" go.mod && cp $S/go.sum . 2>/dev/null; go run . >/tmp/seed-demo-$1.log 2>&1); return $?; fi; }
@@ -18,14 +18,15 @@ demo clean; clean=$?
 (cd $S && go test -vet=off -count=1 -timeout 120s ./... >/tmp/seed-suite.log 2>&1); suite=$?
 demo patched; patched=$?
 echo "suite_rc=$suite demo_clean_rc=$clean demo_patched_rc=$patched"
-# checks against /repo itself
-git -C /repo apply $src/patch.diff || { echo "git apply failed"; exit 1; }
+# checks against /repo itself (or, with SEED_SCRATCH=1, against the patched scratch copy so that /repo stays untouched)
+R=/repo
+if [ -n "${SEED_SCRATCH:-}" ]; then R=$S; else git -C /repo apply $src/patch.diff || { echo "git apply failed"; exit 1; }; fi
 caught=""
 for p in $(jq -r '.checks[].property_id' /verif/MANIFEST.json); do
-  out=$(/verif/bin/vcheck -property $p -no-evidence 2>&1); rc=$?
+  out=$(/verif/bin/vcheck -property $p -no-evidence -repo $R 2>&1); rc=$?
   if [ $rc -ne 0 ]; then caught="$caught $p"; echo "--- $p rc=$rc"; echo "$out" | grep -B2 "^VIOLATION" | grep -v "^VIOLATION" | head -6 | cut -c1-260; fi
 done
-git -C /repo checkout -- .
+[ -n "${SEED_SCRATCH:-}" ] || git -C /repo checkout -- .
 echo "caught_by:${caught:- NONE}"
 d=/verif/seeded/$id; mkdir -p $d; cp $src/patch.diff $d/; cp -r $src/demo_test.go $src/demo $d/ 2>/dev/null; cp $src/README.md $d/AGENT_README.md 2>/dev/null
 jq -n --arg prop "$prop" --arg id "$id" --arg caught "${caught# }" --argjson suite $suite --argjson clean $clean --argjson patched $patched --arg pkg "$pkg" --arg run "$run" \
